@@ -119,7 +119,8 @@ type Compiler struct {
 	OnDemand      int
 	NestedInExpr  int
 	RefTags       []RefTag
-	wantLHS       int // values expected from the call that is the single right-hand side of the statement being compiled
+	voidSig       *types.Signature // the one signature object all `func()` literals are created from
+	wantLHS       int              // values expected from the call that is the single right-hand side of the statement being compiled
 	stmtDepth     int
 	lastPos       token.Pos
 	declStack     []*Sym
